@@ -180,10 +180,10 @@ theorem find?_eq_head?_filter {α : Type} (p : α → Bool) (l : List α) : l.fi
 theorem bestKey_eq_identOf (es : List Entry) : bestKey es = identOf (es.filter Entry.eligible) := by
   unfold bestKey identOf; rw [find?_eq_head?_filter]
 
-theorem mem_chs_of_map {t : Table} {cs : List Change} {G : Fam → Net × Dest → Option Change}
-    (hc : cs = (t.rib .v4).dests.filterMap (G .v4) ++ (t.rib .ev).dests.filterMap (G .ev)) {ch : Change} :
-    ch ∈ cs ↔ ∃ f, ∃ nd ∈ (t.rib f).dests, G f nd = some ch := by
-  rw [hc, List.mem_append, List.mem_filterMap, List.mem_filterMap]
+theorem mem_chs_of_flatMap {t : Table} {cs : List Change} {G : Fam → Net × Dest → List Change}
+    (hc : cs = (t.rib .v4).dests.flatMap (G .v4) ++ (t.rib .ev).dests.flatMap (G .ev)) {ch : Change} :
+    ch ∈ cs ↔ ∃ f, ∃ nd ∈ (t.rib f).dests, ch ∈ G f nd := by
+  rw [hc, List.mem_append, List.mem_flatMap, List.mem_flatMap]
   constructor
   · rintro (⟨nd, h1, h2⟩ | ⟨nd, h1, h2⟩)
     · exact ⟨.v4, nd, h1, h2⟩
@@ -213,33 +213,53 @@ theorem destId_mapDests {t t' : Table} {F : Fam → Net × Dest → Net × Dest}
   | none => rfl
   | some d => simp only [Option.map_some]; rw [(hF f (n, d)).2]
 
+theorem flatMap_keys_sublist {α β γ : Type} (G : α → List β) (kb : β → γ) (ka : α → γ)
+    (hG : ∀ a, ∀ b ∈ G a, kb b = ka a) (hlen : ∀ a, (G a).length ≤ 1) (l : List α) :
+    ((l.flatMap G).map kb).Sublist (l.map ka) := by
+  induction l with
+  | nil => simp
+  | cons a l ih =>
+    rw [List.flatMap_cons, List.map_append, List.map_cons]
+    have h1 : ((G a).map kb).Sublist [ka a] := by
+      have hl := hlen a
+      cases hg : G a with
+      | nil => simp
+      | cons b rest =>
+        cases rest with
+        | nil =>
+          have : kb b = ka a := hG a b (by rw [hg]; exact List.mem_cons_self)
+          simp [this]
+        | cons _ _ => rw [hg] at hl; simp at hl
+    exact List.Sublist.append h1 ih
+
 /-- The facts about the notifications of a step that maps the destinations of every family one by
-    one (`F`) and reports per destination (`G`). -/
-theorem stepFacts_of_map {t t' : Table} {op : Op} {r : Res} {F : Fam → Net × Dest → Net × Dest}
-    {G : Fam → Net × Dest → Option Change}
+    one (`F`) and reports per destination (`G`, possibly several notifications). -/
+theorem stepFacts_of_flatMap {t t' : Table} {op : Op} {r : Res} {F : Fam → Net × Dest → Net × Dest}
+    {G : Fam → Net × Dest → List Change}
     (hd : ∀ f, (t'.rib f).dests = (t.rib f).dests.map (F f))
-    (hc : r.chs = (t.rib .v4).dests.filterMap (G .v4) ++ (t.rib .ev).dests.filterMap (G .ev))
+    (hc : r.chs = (t.rib .v4).dests.flatMap (G .v4) ++ (t.rib .ev).dests.flatMap (G .ev))
     (hk : ∀ f, ((t.rib f).dests.map (·.1)).Nodup)
     (hF : ∀ f nd, (F f nd).1 = nd.1 ∧ (F f nd).2.id = nd.2.id)
-    (hG : ∀ f nd ch, G f nd = some ch → ch.fam = f ∧ ch.net = nd.1 ∧ ch.destId = nd.2.id ∧
+    (hG : ∀ f nd, ∀ ch ∈ G f nd, ch.fam = f ∧ ch.net = nd.1 ∧ ch.destId = nd.2.id ∧
       ch.paths = (F f nd).2.entries.filter Entry.eligible)
+    (hOne : op.isRestaleLlgr = false → ∀ f nd, (G f nd).length ≤ 1)
     (hAny : ∀ f, (t.rib f).deferring = false → ∀ nd ∈ (t.rib f).dests,
       nd.2.entries.filter Entry.eligible ≠ (F f nd).2.entries.filter Entry.eligible →
-      ∃ ch, G f nd = some ch ∧ ch.any = true)
+      ∃ ch ∈ G f nd, ch.any = true)
     (hBest : ∀ f, (t.rib f).deferring = false → ∀ nd ∈ (t.rib f).dests,
       identOf (nd.2.entries.filter Entry.eligible) ≠ identOf ((F f nd).2.entries.filter Entry.eligible) →
-      ∃ ch, G f nd = some ch ∧ ch.best = true)
-    (hSil : ∀ f, (t.rib f).deferring = true → op.isEndDeferral f = false → ∀ nd, G f nd = none)
+      ∃ ch ∈ G f nd, ch.best = true)
+    (hSil : ∀ f, (t.rib f).deferring = true → op.isEndDeferral f = false → ∀ nd, G f nd = [])
     (hEnd : ∀ f, op.isEndDeferral f = true → ∀ nd ∈ (t.rib f).dests,
-      (F f nd).2.entries.filter Entry.eligible ≠ [] → ∃ ch, G f nd = some ch ∧ ch.best = true ∧ ch.any = true)
+      (F f nd).2.entries.filter Entry.eligible ≠ [] → ∃ ch ∈ G f nd, ch.best = true ∧ ch.any = true)
     (hDef : ∀ f, (t'.rib f).deferring =
       if op.isStartDeferral f then true else if op.isEndDeferral f then false else (t.rib f).deferring) :
     StepFacts t op t' r := by
   have hF1 : ∀ f nd, (F f nd).1 = nd.1 := fun f nd => (hF f nd).1
-  have hmem := @mem_chs_of_map t r.chs G hc
+  have hmem := @mem_chs_of_flatMap t r.chs G hc
   -- a notification comes from a destination that can be looked up
   have hsrc : ∀ ch ∈ r.chs, ∃ d, alookup ch.net (t.rib ch.fam).dests = some d ∧
-      G ch.fam (ch.net, d) = some ch := by
+      ch ∈ G ch.fam (ch.net, d) := by
     intro ch hch
     obtain ⟨f, nd, hnd, hg⟩ := hmem.mp hch
     obtain ⟨h1, h2, -, -⟩ := hG f nd ch hg
@@ -259,11 +279,12 @@ theorem stepFacts_of_map {t t' : Table} {op : Op} {r : Res} {F : Fam → Net × 
     unfold Table.destId
     rw [h1]; simp only [Option.map_some]
     rw [(hG _ _ _ h2).2.2.1]
-  · rw [hc, List.map_append, List.nodup_append]
-    have hs : ∀ f, (((t.rib f).dests.filterMap (G f)).map fun ch => (ch.fam, ch.net)).Sublist
+  · intro hop
+    rw [hc, List.map_append, List.nodup_append]
+    have hs : ∀ f, (((t.rib f).dests.flatMap (G f)).map fun ch => (ch.fam, ch.net)).Sublist
         ((t.rib f).dests.map fun nd => (f, nd.1)) := by
       intro f
-      apply filterMap_keys_sublist
+      apply flatMap_keys_sublist _ _ _ _ (hOne hop f)
       intro nd ch h
       obtain ⟨h1, h2, -⟩ := hG f nd ch h
       rw [h1, h2]
@@ -319,6 +340,53 @@ theorem stepFacts_of_map {t t' : Table} {op : Op} {r : Res} {F : Fam → Net × 
       obtain ⟨ch, h1, h2⟩ := hEnd f hop (n, d) hnd hne
       obtain ⟨h3, h4, -⟩ := hG f _ ch h1
       exact ⟨ch, hmem.mpr ⟨f, _, hnd, h1⟩, h3, h4, h2⟩
+
+theorem filterMap_eq_flatMap {α β : Type} (G : α → Option β) (l : List α) :
+    l.filterMap G = l.flatMap fun a => (G a).toList := by
+  induction l with
+  | nil => rfl
+  | cons a l ih =>
+    rw [List.filterMap_cons, List.flatMap_cons, ← ih]
+    cases G a <;> rfl
+
+/-- ... with at most one notification per destination -/
+theorem stepFacts_of_map {t t' : Table} {op : Op} {r : Res} {F : Fam → Net × Dest → Net × Dest}
+    {G : Fam → Net × Dest → Option Change}
+    (hd : ∀ f, (t'.rib f).dests = (t.rib f).dests.map (F f))
+    (hc : r.chs = (t.rib .v4).dests.filterMap (G .v4) ++ (t.rib .ev).dests.filterMap (G .ev))
+    (hk : ∀ f, ((t.rib f).dests.map (·.1)).Nodup)
+    (hF : ∀ f nd, (F f nd).1 = nd.1 ∧ (F f nd).2.id = nd.2.id)
+    (hG : ∀ f nd ch, G f nd = some ch → ch.fam = f ∧ ch.net = nd.1 ∧ ch.destId = nd.2.id ∧
+      ch.paths = (F f nd).2.entries.filter Entry.eligible)
+    (hAny : ∀ f, (t.rib f).deferring = false → ∀ nd ∈ (t.rib f).dests,
+      nd.2.entries.filter Entry.eligible ≠ (F f nd).2.entries.filter Entry.eligible →
+      ∃ ch, G f nd = some ch ∧ ch.any = true)
+    (hBest : ∀ f, (t.rib f).deferring = false → ∀ nd ∈ (t.rib f).dests,
+      identOf (nd.2.entries.filter Entry.eligible) ≠ identOf ((F f nd).2.entries.filter Entry.eligible) →
+      ∃ ch, G f nd = some ch ∧ ch.best = true)
+    (hSil : ∀ f, (t.rib f).deferring = true → op.isEndDeferral f = false → ∀ nd, G f nd = none)
+    (hEnd : ∀ f, op.isEndDeferral f = true → ∀ nd ∈ (t.rib f).dests,
+      (F f nd).2.entries.filter Entry.eligible ≠ [] → ∃ ch, G f nd = some ch ∧ ch.best = true ∧ ch.any = true)
+    (hDef : ∀ f, (t'.rib f).deferring =
+      if op.isStartDeferral f then true else if op.isEndDeferral f then false else (t.rib f).deferring) :
+    StepFacts t op t' r := by
+  refine stepFacts_of_flatMap (G := fun f nd => (G f nd).toList) hd ?_ hk hF ?_ ?_ ?_ ?_ ?_ ?_ hDef
+  · rw [hc, filterMap_eq_flatMap, filterMap_eq_flatMap]
+  · intro f nd ch hch
+    exact hG f nd ch (Option.mem_toList.mp hch)
+  · intro _ f nd
+    cases G f nd <;> simp
+  · intro f hdf nd hnd hne
+    obtain ⟨ch, h1, h2⟩ := hAny f hdf nd hnd hne
+    exact ⟨ch, Option.mem_toList.mpr h1, h2⟩
+  · intro f hdf nd hnd hne
+    obtain ⟨ch, h1, h2⟩ := hBest f hdf nd hnd hne
+    exact ⟨ch, Option.mem_toList.mpr h1, h2⟩
+  · intro f hdf hop nd
+    rw [hSil f hdf hop nd]; rfl
+  · intro f hop nd hnd hne
+    obtain ⟨ch, h1, h2⟩ := hEnd f hop nd hnd hne
+    exact ⟨ch, Option.mem_toList.mpr h1, h2⟩
 
 /-! ## `restale` / `restale_llgr`: the flag sets -/
 
@@ -522,12 +590,13 @@ theorem filter_sortBy_of_sorted {c : Entry → Entry → Ordering} (hc : LawfulC
 /-! ## one destination of `restale`, ranked by given flags -/
 
 /-- `restaleDest` without the marking: the paths are ranked by the flags `FL` -/
-def rd (fam : Fam) (addr : Nat) (FL : Flags) (nd : Net × Dest) : (Net × Dest) × Option Change :=
+def rd (fam : Fam) (addr : Nat) (m : Bool) (FL : Flags) (nd : Net × Dest) : (Net × Dest) × Option Change :=
   if !nd.2.entries.any (sameAddr addr) then (nd, none)
   else
     let anyUnf := nd.2.entries.any fun e => sameAddr addr e && !e.filtered
     let entries := sortBy (cmpFor FL nd.1.t2) nd.2.entries
-    let bestChanged := bestLpid nd.2.entries != bestLpid entries
+    let bestChanged := bestLpid nd.2.entries != bestLpid entries ||
+      (m && (match entries.find? Entry.eligible with | some e => sameAddr addr e | none => false))
     ((nd.1, { nd.2 with entries := entries }),
      if bestChanged || anyUnf then
        some { fam, net := nd.1, destId := nd.2.id, best := bestChanged, any := anyUnf, replaced := none,
@@ -537,6 +606,13 @@ def rd (fam : Fam) (addr : Nat) (FL : Flags) (nd : Net × Dest) : (Net × Dest) 
 def addrIds (addr : Nat) (nd : Net × Dest) : List Nat :=
   (nd.2.entries.filter (sameAddr addr)).map (·.src.id)
 
+/-- the notifications of one destination: `restale_llgr` reports every usable path of the peer -/
+def expandOpt (m : Bool) (addr : Nat) : Option Change → List Change
+  | some c => if m then expandLlgr addr c else [c]
+  | none => []
+
+variable {m : Bool}
+
 theorem restaleDest_untouched (fam : Fam) (addr : Nat) (m : Bool) (fl : Flags) (nd : Net × Dest)
     (h : nd.2.entries.any (sameAddr addr) = false) : restaleDest fam addr m fl nd = (fl, nd, none) := by
   obtain ⟨net, dst⟩ := nd
@@ -545,31 +621,31 @@ theorem restaleDest_untouched (fam : Fam) (addr : Nat) (m : Bool) (fl : Flags) (
   rw [h]; rfl
 
 theorem rd_untouched (fam : Fam) (addr : Nat) (FL : Flags) (nd : Net × Dest)
-    (h : nd.2.entries.any (sameAddr addr) = false) : rd fam addr FL nd = (nd, none) := by
+    (h : nd.2.entries.any (sameAddr addr) = false) : rd fam addr m FL nd = (nd, none) := by
   unfold rd; rw [h]; rfl
 
 theorem restaleDest_touched (fam : Fam) (addr : Nat) (m : Bool) (fl : Flags) (nd : Net × Dest)
     (h : nd.2.entries.any (sameAddr addr) = true) :
     restaleDest fam addr m fl nd
-      = (markFl m (addrIds addr nd) fl, rd fam addr (markFl m (addrIds addr nd) fl) nd) := by
+      = (markFl m (addrIds addr nd) fl, rd fam addr m (markFl m (addrIds addr nd) fl) nd) := by
   obtain ⟨net, dst⟩ := nd
   simp only at h
   simp only [restaleDest, rd, h, markFl, addrIds]
   rfl
 
 theorem rd_congr (fam : Fam) (addr : Nat) {FL FL' : Flags} (nd : Net × Dest)
-    (h : ∀ e ∈ nd.2.entries, FlAgree FL FL' e.src.id) : rd fam addr FL nd = rd fam addr FL' nd := by
+    (h : ∀ e ∈ nd.2.entries, FlAgree FL FL' e.src.id) : rd fam addr m FL nd = rd fam addr m FL' nd := by
   have : sortBy (cmpFor FL nd.1.t2) nd.2.entries = sortBy (cmpFor FL' nd.1.t2) nd.2.entries :=
     sortBy_congr fun a ha b hb => cmpFor_agree _ (h a ha) (h b hb)
   unfold rd; rw [this]
 
 theorem rd_key (fam : Fam) (addr : Nat) (FL : Flags) (nd : Net × Dest) :
-    (rd fam addr FL nd).1.1 = nd.1 ∧ (rd fam addr FL nd).1.2.id = nd.2.id := by
+    (rd fam addr m FL nd).1.1 = nd.1 ∧ (rd fam addr m FL nd).1.2.id = nd.2.id := by
   unfold rd; split <;> exact ⟨rfl, rfl⟩
 
 theorem rd_entries_touched (fam : Fam) (addr : Nat) (FL : Flags) (nd : Net × Dest)
     (h : nd.2.entries.any (sameAddr addr) = true) :
-    (rd fam addr FL nd).1.2.entries = sortBy (cmpFor FL nd.1.t2) nd.2.entries := by
+    (rd fam addr m FL nd).1.2.entries = sortBy (cmpFor FL nd.1.t2) nd.2.entries := by
   unfold rd; rw [h]; rfl
 
 /-! ## the loop over the destinations -/
@@ -579,9 +655,11 @@ theorem restaleLoop_cons (fam : Fam) (addr : Nat) (m : Bool) (nd : Net × Dest) 
     restaleLoop fam addr m (nd :: l) fl =
       ((restaleLoop fam addr m l (restaleDest fam addr m fl nd).1).1,
        (restaleDest fam addr m fl nd).2.1 :: (restaleLoop fam addr m l (restaleDest fam addr m fl nd).1).2.1,
-       match (restaleDest fam addr m fl nd).2.2 with
-       | some c => c :: (restaleLoop fam addr m l (restaleDest fam addr m fl nd).1).2.2
-       | none => (restaleLoop fam addr m l (restaleDest fam addr m fl nd).1).2.2) := rfl
+       expandOpt m addr (restaleDest fam addr m fl nd).2.2 ++
+         (restaleLoop fam addr m l (restaleDest fam addr m fl nd).1).2.2) := by
+  show restaleLoop fam addr m (nd :: l) fl = _
+  simp only [restaleLoop]
+  cases (restaleDest fam addr m fl nd).2.2 <;> rfl
 
 /-- What the loop computes, in terms of the FINAL flags `res.1`: every destination is the
     `rd` of the original one ranked by the final flags.  `P` describes the source ids that may get
@@ -591,8 +669,10 @@ structure LoopSpec (fam : Fam) (addr : Nat) (m : Bool) (P : Nat → Prop) (l : L
   other : res.1.other m = fl.other m
   mono : ∀ i, (fl.marked m).contains i = true → (res.1.marked m).contains i = true
   new : ∀ i, (res.1.marked m).contains i = true → (fl.marked m).contains i = true ∨ P i
-  dests : res.2.1 = l.map fun nd => (rd fam addr res.1 nd).1
-  chs : res.2.2 = l.filterMap fun nd => (rd fam addr res.1 nd).2
+  dests : res.2.1 = l.map fun nd => (rd fam addr m res.1 nd).1
+  chs : res.2.2 = l.flatMap fun nd => expandOpt m addr (rd fam addr m res.1 nd).2
+  marks : ∀ i, (res.1.marked m).contains i = true ↔
+    ((fl.marked m).contains i = true ∨ ∃ nd ∈ l, i ∈ addrIds addr nd)
 
 theorem restaleLoop_spec (fam : Fam) (addr : Nat) (m : Bool) (P : Nat → Prop) :
     ∀ (l : List (Net × Dest)) (fl : Flags),
@@ -600,7 +680,8 @@ theorem restaleLoop_spec (fam : Fam) (addr : Nat) (m : Bool) (P : Nat → Prop) 
       LoopSpec fam addr m P l fl (restaleLoop fam addr m l fl) := by
   intro l
   induction l with
-  | nil => intro fl _; exact ⟨rfl, fun _ h => h, fun _ h => Or.inl h, rfl, rfl⟩
+  | nil => intro fl _; exact ⟨rfl, fun _ h => h, fun _ h => Or.inl h, rfl, rfl,
+      fun i => ⟨Or.inl, fun h => h.elim id (fun ⟨_, hx, _⟩ => absurd hx (by simp))⟩⟩
   | cons nd l ih =>
     intro fl hP
     have hPl : ∀ nd ∈ l, ∀ e ∈ nd.2.entries, sameAddr addr e = true ↔ P e.src.id :=
@@ -611,9 +692,27 @@ theorem restaleLoop_spec (fam : Fam) (addr : Nat) (m : Bool) (P : Nat → Prop) 
       rw [restaleDest_untouched fam addr m fl nd ht]
       have s := ih fl hPl
       simp only
-      refine ⟨s.other, s.mono, s.new, ?_, ?_⟩
+      refine ⟨s.other, s.mono, s.new, ?_, ?_, ?_⟩
       · simp only [List.map_cons, rd_untouched fam addr _ nd ht]; rw [s.dests]
-      · simp only [List.filterMap_cons, rd_untouched fam addr _ nd ht]; rw [s.chs]
+      · rw [List.flatMap_cons, rd_untouched fam addr _ nd ht]
+        show [] ++ _ = [] ++ _
+        rw [s.chs]
+      · intro i
+        rw [s.marks i]
+        have hnone : ∀ i, i ∉ addrIds addr nd := by
+          intro i hi
+          obtain ⟨e, he, -⟩ := List.mem_map.mp hi
+          have := List.mem_filter.mp he
+          exact absurd (List.any_eq_true.mpr ⟨e, this.1, this.2⟩) (by rw [ht]; simp)
+        constructor
+        · rintro (h | ⟨x, hx, hi⟩)
+          · exact Or.inl h
+          · exact Or.inr ⟨x, List.mem_cons_of_mem _ hx, hi⟩
+        · rintro (h | ⟨x, hx, hi⟩)
+          · exact Or.inl h
+          · rcases List.mem_cons.mp hx with rfl | hx
+            · exact absurd hi (hnone i)
+            · exact Or.inr ⟨x, hx, hi⟩
     | true =>
       rw [restaleDest_touched fam addr m fl nd ht]
       generalize hfl1 : markFl m (addrIds addr nd) fl = fl1
@@ -645,9 +744,9 @@ theorem restaleLoop_spec (fam : Fam) (addr : Nat) (m : Bool) (P : Nat → Prop) 
                 List.mem_map.mpr ⟨e, List.mem_filter.mpr ⟨he, hs⟩, rfl⟩
               have := (hmk _).mpr (Or.inr this)
               rw [h1] at this; exact absurd this (by simp)
-      have hrd := rd_congr fam addr nd hag
+      have hrd := rd_congr (m := m) fam addr nd hag
       simp only
-      refine ⟨?_, ?_, ?_, ?_, ?_⟩
+      refine ⟨?_, ?_, ?_, ?_, ?_, ?_⟩
       · rw [s.other, ← hfl1, markFl_other]
       · intro i hi; exact s.mono i ((hmk i).mpr (Or.inl hi))
       · intro i hi
@@ -657,10 +756,19 @@ theorem restaleLoop_spec (fam : Fam) (addr : Nat) (m : Bool) (P : Nat → Prop) 
           · exact Or.inr (hids i h)
         · exact Or.inr h
       · rw [List.map_cons, ← hrd, ← s.dests]
-      · rw [List.filterMap_cons, ← hrd]
-        cases (rd fam addr fl1 nd).2 with
-        | none => simp only; exact s.chs
-        | some c => simp only; rw [s.chs]
+      · rw [List.flatMap_cons, ← hrd, ← s.chs]
+      · intro i
+        rw [s.marks i, hmk i]
+        constructor
+        · rintro ((h | h) | ⟨x, hx, hi⟩)
+          · exact Or.inl h
+          · exact Or.inr ⟨nd, List.mem_cons_self, h⟩
+          · exact Or.inr ⟨x, List.mem_cons_of_mem _ hx, hi⟩
+        · rintro (h | ⟨x, hx, hi⟩)
+          · exact Or.inl (Or.inl h)
+          · rcases List.mem_cons.mp hx with rfl | hx
+            · exact Or.inl (Or.inr hi)
+            · exact Or.inr ⟨x, hx, hi⟩
 
 theorem LoopSpec.agree {fam : Fam} {addr : Nat} {m : Bool} {P : Nat → Prop} {l : List (Net × Dest)}
     {fl : Flags} {res : Flags × List (Net × Dest) × List Change} (s : LoopSpec fam addr m P l fl res)
@@ -681,7 +789,7 @@ theorem LoopSpec.agree {fam : Fam} {addr : Nat} {m : Bool} {P : Nat → Prop} {l
 theorem rd_destOk {c : Case} {g : Nat → Fam} {fl FL : Flags} {f fam : Fam} {addr : Nat} {nd : Net × Dest}
     (hi : DestInv c g fl f nd.1 nd.2)
     (hag : nd.2.entries.any (sameAddr addr) = false → ∀ e ∈ nd.2.entries, FlAgree fl FL e.src.id) :
-    DestOk FL nd (rd fam addr FL nd).1 := by
+    DestOk FL nd (rd fam addr m FL nd).1 := by
   cases ht : nd.2.entries.any (sameAddr addr) with
   | false =>
     rw [rd_untouched fam addr FL nd ht]
@@ -691,22 +799,27 @@ theorem rd_destOk {c : Case} {g : Nat → Fam} {fl FL : Flags} {f fam : Fam} {ad
     · rw [rd_entries_touched fam addr FL nd ht]; exact (sortBy_perm _ _).map _
     · rw [rd_entries_touched fam addr FL nd ht]; exact sortBy_sorted (cmpFor_lawful _ _) _
 
+/-- `best_changed` of `restale` / `restale_llgr` -/
+def bestCh (addr : Nat) (m : Bool) (es es' : List Entry) : Bool :=
+  bestLpid es != bestLpid es' ||
+    (m && (match es'.find? Entry.eligible with | some e => sameAddr addr e | none => false))
+
 theorem rd_emit {fam : Fam} {addr : Nat} {FL : Flags} {nd : Net × Dest}
     (ht : nd.2.entries.any (sameAddr addr) = true) :
-    (rd fam addr FL nd).2 =
-      if (bestLpid nd.2.entries != bestLpid (sortBy (cmpFor FL nd.1.t2) nd.2.entries)
+    (rd fam addr m FL nd).2 =
+      if (bestCh addr m nd.2.entries (sortBy (cmpFor FL nd.1.t2) nd.2.entries)
           || nd.2.entries.any fun e => sameAddr addr e && !e.filtered) then
         some { fam, net := nd.1, destId := nd.2.id,
-               best := bestLpid nd.2.entries != bestLpid (sortBy (cmpFor FL nd.1.t2) nd.2.entries),
+               best := bestCh addr m nd.2.entries (sortBy (cmpFor FL nd.1.t2) nd.2.entries),
                any := nd.2.entries.any fun e => sameAddr addr e && !e.filtered, replaced := none,
                paths := (sortBy (cmpFor FL nd.1.t2) nd.2.entries).filter Entry.eligible }
       else none := by
   unfold rd; rw [ht]; rfl
 
 theorem rd_change {fam : Fam} {addr : Nat} {FL : Flags} {nd : Net × Dest} {ch : Change}
-    (h : (rd fam addr FL nd).2 = some ch) :
+    (h : (rd fam addr m FL nd).2 = some ch) :
     ch.fam = fam ∧ ch.net = nd.1 ∧ ch.destId = nd.2.id ∧
-      ch.paths = (rd fam addr FL nd).1.2.entries.filter Entry.eligible := by
+      ch.paths = (rd fam addr m FL nd).1.2.entries.filter Entry.eligible := by
   cases ht : nd.2.entries.any (sameAddr addr) with
   | false => rw [rd_untouched fam addr FL nd ht] at h; exact absurd h (by simp)
   | true =>
@@ -720,8 +833,8 @@ theorem rd_change {fam : Fam} {addr : Nat} {FL : Flags} {nd : Net × Dest} {ch :
 theorem rd_any {c : Case} {g : Nat → Fam} {fl FL : Flags} {f fam : Fam} {addr : Nat} {nd : Net × Dest}
     (hi : DestInv c g fl f nd.1 nd.2)
     (hag : ∀ e ∈ nd.2.entries, sameAddr addr e = false → FlAgree fl FL e.src.id)
-    (hne : nd.2.entries.filter Entry.eligible ≠ (rd fam addr FL nd).1.2.entries.filter Entry.eligible) :
-    ∃ ch, (rd fam addr FL nd).2 = some ch ∧ ch.any = true := by
+    (hne : nd.2.entries.filter Entry.eligible ≠ (rd fam addr m FL nd).1.2.entries.filter Entry.eligible) :
+    ∃ ch, (rd fam addr m FL nd).2 = some ch ∧ ch.any = true := by
   cases ht : nd.2.entries.any (sameAddr addr) with
   | false => rw [rd_untouched fam addr FL nd ht] at hne; exact absurd rfl hne
   | true =>
@@ -773,20 +886,94 @@ theorem ident_of_bestLpid {es es' : List Entry} (hp : es'.Perm es) (hn : (es.map
 theorem rd_best {c : Case} {g : Nat → Fam} {fl FL : Flags} {f fam : Fam} {addr : Nat} {nd : Net × Dest}
     (hi : DestInv c g fl f nd.1 nd.2)
     (hne : identOf (nd.2.entries.filter Entry.eligible)
-      ≠ identOf ((rd fam addr FL nd).1.2.entries.filter Entry.eligible)) :
-    ∃ ch, (rd fam addr FL nd).2 = some ch ∧ ch.best = true := by
+      ≠ identOf ((rd fam addr m FL nd).1.2.entries.filter Entry.eligible)) :
+    ∃ ch, (rd fam addr m FL nd).2 = some ch ∧ ch.best = true := by
   cases ht : nd.2.entries.any (sameAddr addr) with
   | false => rw [rd_untouched fam addr FL nd ht] at hne; exact absurd rfl hne
   | true =>
     rw [rd_entries_touched fam addr FL nd ht] at hne
     rw [rd_emit ht]
-    cases hb : bestLpid nd.2.entries != bestLpid (sortBy (cmpFor FL nd.1.t2) nd.2.entries) with
+    cases hb : bestCh addr m nd.2.entries (sortBy (cmpFor FL nd.1.t2) nd.2.entries) with
     | true => rw [Bool.true_or, if_pos rfl]; exact ⟨_, rfl, rfl⟩
     | false =>
       exfalso
       apply hne
       apply ident_of_bestLpid (sortBy_perm _ _) hi.lpids
-      simpa using hb
+      unfold bestCh at hb
+      have := (Bool.or_eq_false_iff.mp hb).1
+      simpa using this
+
+/-! ## the expansion of `restale_llgr` -/
+
+theorem mem_expandGo {c ch : Change} {b : Bool} {l : List Nat} (h : ch ∈ expandGo c b l) :
+    ch.fam = c.fam ∧ ch.net = c.net ∧ ch.destId = c.destId ∧ ch.paths = c.paths ∧ ch.any = true := by
+  induction l generalizing b with
+  | nil => simp [expandGo] at h
+  | cons pid l ih =>
+    simp only [expandGo, List.mem_cons] at h
+    rcases h with rfl | h
+    · exact ⟨rfl, rfl, rfl, rfl, rfl⟩
+    · exact ih h
+
+theorem mem_expandLlgr {addr : Nat} {c ch : Change} (h : ch ∈ expandLlgr addr c) :
+    ch.fam = c.fam ∧ ch.net = c.net ∧ ch.destId = c.destId ∧ ch.paths = c.paths := by
+  unfold expandLlgr at h
+  simp only at h
+  split at h
+  · rw [List.mem_singleton.mp h]; exact ⟨rfl, rfl, rfl, rfl⟩
+  · obtain ⟨h1, h2, h3, h4, -⟩ := mem_expandGo h
+    exact ⟨h1, h2, h3, h4⟩
+
+theorem expandLlgr_any {addr : Nat} {c : Change} (h : c.any = true) : ∃ ch ∈ expandLlgr addr c, ch.any = true := by
+  unfold expandLlgr
+  simp only
+  split
+  · exact ⟨c, List.mem_singleton.mpr rfl, h⟩
+  · rename_i hne
+    cases hl : (c.paths.filter (sameAddr addr)).map (·.lpid) with
+    | nil => rw [hl] at hne; simp at hne
+    | cons pid l => exact ⟨_, by simp only [expandGo]; exact List.mem_cons_self, rfl⟩
+
+theorem expandLlgr_best {addr : Nat} {c : Change} (h : c.best = true) :
+    ∃ ch ∈ expandLlgr addr c, ch.best = true := by
+  unfold expandLlgr
+  simp only
+  split
+  · exact ⟨c, List.mem_singleton.mpr rfl, h⟩
+  · rename_i hne
+    cases hl : (c.paths.filter (sameAddr addr)).map (·.lpid) with
+    | nil => rw [hl] at hne; simp at hne
+    | cons pid l =>
+      refine ⟨_, by simp only [expandGo]; exact List.mem_cons_self, ?_⟩
+      simp [h]
+
+theorem mem_expandOpt {addr : Nat} {oc : Option Change} {ch : Change} (h : ch ∈ expandOpt m addr oc) :
+    ∃ c, oc = some c ∧ ch.fam = c.fam ∧ ch.net = c.net ∧ ch.destId = c.destId ∧ ch.paths = c.paths := by
+  cases oc with
+  | none => simp [expandOpt] at h
+  | some c =>
+    refine ⟨c, rfl, ?_⟩
+    simp only [expandOpt] at h
+    split at h
+    · exact mem_expandLlgr h
+    · rw [List.mem_singleton.mp h]; exact ⟨rfl, rfl, rfl, rfl⟩
+
+theorem expandOpt_any {addr : Nat} {c : Change} (h : c.any = true) :
+    ∃ ch ∈ expandOpt m addr (some c), ch.any = true := by
+  simp only [expandOpt]
+  split
+  · exact expandLlgr_any h
+  · exact ⟨c, List.mem_singleton.mpr rfl, h⟩
+
+theorem expandOpt_best {addr : Nat} {c : Change} (h : c.best = true) :
+    ∃ ch ∈ expandOpt m addr (some c), ch.best = true := by
+  simp only [expandOpt]
+  split
+  · exact expandLlgr_best h
+  · exact ⟨c, List.mem_singleton.mpr rfl, h⟩
+
+theorem expandOpt_false_length (addr : Nat) (oc : Option Change) : (expandOpt false addr oc).length ≤ 1 := by
+  cases oc <;> simp [expandOpt]
 
 /-! ## tables -/
 
@@ -822,6 +1009,31 @@ theorem filterMap_unless {α β : Type} (b : Bool) (l : List α) (K : α → Opt
   · simp
   · simp
 
+theorem flatMap_nil' {α β : Type} (l : List α) : l.flatMap (fun _ => ([] : List β)) = [] := by
+  induction l with
+  | nil => rfl
+  | cons a l ih => rw [List.flatMap_cons]; exact ih
+
+theorem chs_single_flat (t : Table) (fam : Fam) (H : Net × Dest → List Change) :
+    (t.rib fam).dests.flatMap H
+      = (t.rib .v4).dests.flatMap (fun nd => if Fam.v4 = fam then H nd else [])
+        ++ (t.rib .ev).dests.flatMap (fun nd => if Fam.ev = fam then H nd else []) := by
+  cases fam
+  · have e1 : (fun nd => if Fam.v4 = Fam.v4 then H nd else []) = H := by funext nd; rw [if_pos rfl]
+    have e2 : (fun nd : Net × Dest => if Fam.ev = Fam.v4 then H nd else []) = fun _ => [] := by
+      funext nd; rw [if_neg (by decide)]
+    rw [e1, e2, flatMap_nil', List.append_nil]
+  · have e1 : (fun nd => if Fam.ev = Fam.ev then H nd else []) = H := by funext nd; rw [if_pos rfl]
+    have e2 : (fun nd : Net × Dest => if Fam.v4 = Fam.ev then H nd else []) = fun _ => [] := by
+      funext nd; rw [if_neg (by decide)]
+    rw [e1, e2, flatMap_nil', List.nil_append]
+
+theorem flatMap_unless {α β : Type} (b : Bool) (l : List α) (K : α → List β) :
+    (if b = true then [] else l.flatMap K) = l.flatMap fun a => if b = true then [] else K a := by
+  cases b
+  · simp
+  · simp [flatMap_nil']
+
 /-! ## `restale` / `restale_llgr` -/
 
 theorem restaleGen_eq (t : Table) (addr : Nat) (fam : Fam) (m : Bool) :
@@ -855,7 +1067,7 @@ theorem not_peerId_of_fam {c : Case} {g : Nat → Fam} {addr : Nat} {fam f : Fam
 
 theorem restaleGen_sound {c : Case} {g : Nat → Fam} {t : Table} (addr : Nat) (fam : Fam) (m : Bool)
     (op : Op) (hop1 : ∀ f, op.isEndDeferral f = false) (hop2 : ∀ f, op.isStartDeferral f = false)
-    (hinv : Inv c g t) :
+    (hm : op.isRestaleLlgr = false → m = false) (hinv : Inv c g t) :
     Inv c g (t.restaleGen addr fam m).1 ∧
       StepFacts t op (t.restaleGen addr fam m).1 (t.restaleGen addr fam m).2 := by
   have hP : ∀ nd ∈ (t.rib fam).dests, ∀ e ∈ nd.2.entries,
@@ -867,9 +1079,9 @@ theorem restaleGen_sound {c : Case} {g : Nat → Fam} {t : Table} (addr : Nat) (
   obtain ⟨FL, ds, cs⟩ := res
   simp only at s ⊢
   -- the mapping
-  let F : Fam → Net × Dest → Net × Dest := fun f nd => if f = fam then (rd fam addr FL nd).1 else nd
-  let G : Fam → Net × Dest → Option Change := fun f nd =>
-    if f = fam then (if (t.rib fam).deferring = true then none else (rd fam addr FL nd).2) else none
+  let F : Fam → Net × Dest → Net × Dest := fun f nd => if f = fam then (rd fam addr m FL nd).1 else nd
+  let G : Fam → Net × Dest → List Change := fun f nd =>
+    if f = fam then (if (t.rib fam).deferring = true then [] else expandOpt m addr (rd fam addr m FL nd).2) else []
   generalize ht' : ({ (t.setRib fam { t.rib fam with dests := ds }) with stale := FL.stale, llgr := FL.llgr } : Table) = t'
   have hflags : t'.flags = FL := by rw [← ht']; rfl
   have hrib : ∀ f, t'.rib f = (t.setRib fam { t.rib fam with dests := ds }).rib f := by
@@ -880,7 +1092,7 @@ theorem restaleGen_sound {c : Case} {g : Nat → Fam} {t : Table} (addr : Nat) (
     by_cases hf : f = fam
     · subst hf
       rw [rib_setRib_self]
-      have : F f = fun nd => (rd f addr FL nd).1 := by funext nd; simp only [F, if_pos]
+      have : F f = fun nd => (rd f addr m FL nd).1 := by funext nd; simp only [F, if_pos]
       rw [this]; exact (s.dests : ds = _)
     · rw [rib_setRib_ne t hf]
       have : F f = fun nd => nd := by funext nd; simp only [F, if_neg hf]
@@ -925,10 +1137,10 @@ theorem restaleGen_sound {c : Case} {g : Nat → Fam} {t : Table} (addr : Nat) (
     · simp only [F, if_neg hf]
       exact DestOk.refl (hi.sorted.agree fun e he => hag f nd hnd e he fun h => absurd h hf)
   refine ⟨hinv.mapDests hd hu hFok (by rw [← ht']; cases fam <;> rfl) (by rw [← ht']; cases fam <;> rfl), ?_⟩
-  refine stepFacts_of_map (F := F) (G := G) hd ?_ (fun f => (hinv.rib f).keys) ?_ ?_ ?_ ?_ ?_ ?_ ?_
+  refine stepFacts_of_flatMap (F := F) (G := G) hd ?_ (fun f => (hinv.rib f).keys) ?_ ?_ ?_ ?_ ?_ ?_ ?_ ?_
   · show (if (t.rib fam).deferring = true then [] else cs) = _
     have hcs : cs = _ := s.chs
-    rw [hcs, filterMap_unless, chs_single t fam]
+    rw [hcs, flatMap_unless, chs_single_flat t fam]
   · intro f nd
     by_cases hf : f = fam
     · simp only [F, if_pos hf]; exact rd_key fam addr FL nd
@@ -939,8 +1151,18 @@ theorem restaleGen_sound {c : Case} {g : Nat → Fam} {t : Table} (addr : Nat) (
       simp only [G, F, if_pos] at h ⊢
       split at h
       · exact absurd h (by simp)
-      · exact rd_change h
+      · obtain ⟨c0, hc0, h1, h2, h3, h4⟩ := mem_expandOpt h
+        obtain ⟨g1, g2, g3, g4⟩ := rd_change hc0
+        exact ⟨h1.trans g1, h2.trans g2, h3.trans g3, h4.trans g4⟩
     · simp only [G, if_neg hf] at h; exact absurd h (by simp)
+  · intro hop f nd
+    have hm0 := hm hop
+    by_cases hf : f = fam
+    · simp only [G, if_pos hf]
+      split
+      · simp
+      · rw [hm0]; exact expandOpt_false_length addr _
+    · simp only [G, if_neg hf]; simp
   · intro f hdf nd hnd hne
     have hi := (hinv.rib f).dest nd hnd
     by_cases hf : f = fam
@@ -948,7 +1170,8 @@ theorem restaleGen_sound {c : Case} {g : Nat → Fam} {t : Table} (addr : Nat) (
       simp only [G, F, if_pos] at hne ⊢
       rw [hdf]
       simp only [Bool.false_eq_true, if_false]
-      exact rd_any hi (fun e he h => hag f nd hnd e he fun _ => h) hne
+      obtain ⟨c0, hc0, hany⟩ := rd_any (m := m) hi (fun e he h => hag f nd hnd e he fun _ => h) hne
+      rw [hc0]; exact expandOpt_any hany
     · simp only [F, if_neg hf] at hne; exact absurd rfl hne
   · intro f hdf nd hnd hne
     have hi := (hinv.rib f).dest nd hnd
@@ -957,7 +1180,8 @@ theorem restaleGen_sound {c : Case} {g : Nat → Fam} {t : Table} (addr : Nat) (
       simp only [G, F, if_pos] at hne ⊢
       rw [hdf]
       simp only [Bool.false_eq_true, if_false]
-      exact rd_best hi hne
+      obtain ⟨c0, hc0, hb⟩ := rd_best (m := m) hi hne
+      rw [hc0]; exact expandOpt_best hb
     · simp only [F, if_neg hf] at hne; exact absurd rfl hne
   · intro f hdf _ nd
     by_cases hf : f = fam
